@@ -33,6 +33,11 @@ func c20Pool() []replLine {
 		// a runtime error raised 3000 user-function calls deep (whatever a failing line leaves behind must not accumulate)
 		{Fun("dp", "n", " "+If("n == 0", "{ "+Ret("nil.k")+" }")+" "+Ret("dp(n - 1)")+" ") + " dp(3000);", true, "runtime"},
 		{Fun("dq", "n", " "+If("n == 0", "{ "+Ret("1")+" }")+" "+Ret("1 + dq(n - 1)")+" ") + " dq(800);", true, "echo"},
+		// lines that are not well-formed UTF-8
+		{"\xff", true, "lexical"}, {Print(`"a` + "\xc3" + `b"`), true, "print"}, {"// \xe0\xa6 comment", true, "empty"}, {Print("1") + " \xe0\xa6", true, "lexical"}, {"\xed\xa0\x80;", true, "lexical"},
+		// a function header that fails to parse, then the same name used for a variable
+		{K["fun"] + " গণনা(", true, "syntax"}, {K["fun"] + " গণনা() { " + K["return"] + " 1 }", true, "syntax"}, {Fun("গণনা", "", " "+Ret("1")+" ") + " " + K["var"] + " ;", true, "syntax"},
+		{Var("গণনা", "৫") + " " + Print("গণনা + ১"), true, "print"}, {"{ " + Var("গণনা", "2") + " " + Print("গণনা") + " }", true, "print"}, {Fun("গণনা", "", " "+Ret("7")+" ") + " " + Print("গণনা()"), true, "print"},
 		// long lines (beyond a 4096-byte buffer, below bufio.Scanner's 64 KiB limit)
 		{Print(`"` + strings.Repeat("লম্বা ", 900) + `"`), true, "long"},
 		{"1" + strings.Repeat(" + 1", 1999) + ";", true, "long"},
@@ -292,7 +297,7 @@ func c20Run(c *Ctx) {
 func init() {
 	register(&CheckDef{
 		ID:   "C20",
-		Rule: "interactive sessions of the plain binary (stdout and stderr on one pipe, split at the `>> ` prompts): every sequence of <=2 (quick) / <=3 (thorough) lines over a 61-line pool (prints, bare expressions of every value kind, built-in calls, lexical errors, syntax errors, runtime errors incl. a failing multi-statement line and a line that overwrites a built-in name and then fails, a declaration and dependent lines, empty / blank / comment-only lines, multi-statement lines), with and without a final newline; seeded random sessions of 3-40 lines; long lines (4-12 kB: a long string, a 2000-term sum, a long comment, 150 stray characters, long failing lines); long sessions of 120-380 lines dominated by failing lines. Checks: exit status 0; exactly one response per line plus the final prompt; every self-contained line's response equals refborno's REPL-mode expectation (echo of bare expression values included) and is byte-identical to the response the same binary gives to that line alone in a fresh session. Non-trivial = distinct session whose responses were all checked.",
+		Rule: "interactive sessions of the plain binary (stdout and stderr on one pipe, split at the `>> ` prompts): every sequence of <=2 (quick) / <=3 (thorough) lines over a 72-line pool (prints, bare expressions of every value kind, built-in calls, lexical errors, syntax errors, runtime errors incl. a failing multi-statement line and a line that overwrites a built-in name and then fails, a declaration and dependent lines, empty / blank / comment-only lines, multi-statement lines), with and without a final newline; seeded random sessions of 3-40 lines; long lines (4-12 kB: a long string, a 2000-term sum, a long comment, 150 stray characters, long failing lines); long sessions of 120-380 lines dominated by failing lines. Checks: exit status 0; exactly one response per line plus the final prompt; every self-contained line's response equals refborno's REPL-mode expectation (echo of bare expression values included) and is byte-identical to the response the same binary gives to that line alone in a fresh session. Non-trivial = distinct session whose responses were all checked.",
 		Assumptions: []string{"the property promises no state carried between lines: lines that depend on earlier lines are only counted", "lines containing the prompt text, ইনপুট/ক্লক lines and lines beyond bufio.Scanner's 64 KiB limit are out of domain"},
 		Run:         c20Run,
 		Judge:       c20Judge,
